@@ -86,6 +86,8 @@ class GriffeLoader:
         """Whether to store source code in the lines collection."""
         self.finder: ModuleFinder = ModuleFinder(search_paths)
         """The module source finder."""
+        self._unexpanded_wildcards: bool = False
+        self._expanded_wildcards: bool = False
         self._time_stats: dict = {
             "time_spent_visiting": 0,
             "time_spent_inspecting": 0,
@@ -226,9 +228,16 @@ class GriffeLoader:
         # Resolving aliases can load more packages (see `external`), which in turn can bring
         # new wildcard imports and new aliases: start over until no new package gets loaded,
         # so that calling this method a second time has nothing left to do.
+        # Wildcard imports whose module is reached through an alias, or through a name that another
+        # wildcard import brings, can only be expanded once that alias is resolved or that wildcard expanded:
+        # start over as well when that happened while some wildcards were left unexpanded.
         loaded_packages = -1
-        while loaded_packages != len(collection) and iteration < max_iterations:  # type: ignore[operator]
+        progress = False
+        while (
+            loaded_packages != len(collection) or (progress and self._unexpanded_wildcards)
+        ) and iteration < max_iterations:  # type: ignore[operator]
             loaded_packages = len(collection)
+            self._unexpanded_wildcards = self._expanded_wildcards = False
 
             # Before resolving aliases, we try to expand wildcard imports again
             # (this was already done in `_post_load()`),
@@ -238,6 +247,7 @@ class GriffeLoader:
             for wildcards_module in list(collection.values()):
                 self.expand_wildcards(wildcards_module, external=external)
 
+            progress = self._expanded_wildcards
             prev_unresolved: set[str] = set()
             unresolved = set("0")  # Init to enter loop.
             resolved: set[str] = set()
@@ -258,6 +268,7 @@ class GriffeLoader:
                     )
                     resolved |= next_resolved
                     unresolved |= next_unresolved
+                progress = progress or bool(resolved)
                 logger.debug(
                     "Iteration %s finished, %s aliases resolved, still %s to go",
                     iteration,
@@ -385,6 +396,12 @@ class GriffeLoader:
             # Recurse in unseen submodules.
             elif not member.is_alias and member.is_module and member.path not in seen:
                 self.expand_wildcards(member, external=external, seen=seen)  # type: ignore[arg-type]
+
+        # Wildcards that could not be expanded (yet) are left in place.
+        if to_remove:
+            self._expanded_wildcards = True
+        if any(member.is_alias and member.wildcard for member in obj.members.values() if member.name not in to_remove):  # type: ignore[union-attr]
+            self._unexpanded_wildcards = True
 
         # Then we remove the members representing wildcard imports.
         for name in to_remove:
